@@ -172,3 +172,22 @@ def C04(tier, seed):
                   "from a prefix at the rebuild threshold with index/stride-colliding and theta-adjacent hashes; Trace: random public streams "
                   "lg_k 5..12 x 4 resize factors x p in {1,.5,.1} x seeds, crafted collision families, theta-1/theta/theta+1, screened-out "
                   "sampling sketches, trim/reset/compact interleavings, full table at every resize/rebuild")
+
+
+# --------------------------------------------------------------------------- Frequent items
+FI_CONSTS = "CONSTANTS MinLg = 3  MaxSample = 1024\n"
+
+
+def C07(tier, seed):
+    hll_like("C07", tier, seed, ["C07"], "fi-record",
+             [("MC_FreqItems", "MC_FreqItems_thorough.cfg" if tier == "thorough" else "MC_FreqItems.cfg")],
+             ("Gen_FreqItems", ["Gen_FreqItems.cfg"]),
+             module="Trace_FreqItems", family="FreqItems", consts=FI_CONSTS,
+             assumptions=["item identity = index in the run's alphabet plus the low 20 bits of the reference hash (home slot for every map size)",
+                          "the exact frequency of every item is a ghost of the trace specification, updated by the logged (item, weight) arguments",
+                          "weights are kept below 2^31 in total (TLC integers)"],
+             rule="MC: real minimum map (8 slots), 8 clustered items, weights {1,2}, every sequence of updates / catalogue merges (purged-to-empty, "
+                  "survivor+offset, exact) / reset from a prefix next to the purge; Gen: one behaviour per distinct pair of map states (x, y) with "
+                  "merges; Trace: uniform/skewed/all-distinct/bimodal weighted streams on maps 8..128 (2048 thorough) with clustered home slots, "
+                  "purge-to-empty then merge/serialize, merge trees of 2..5 sketches of equal and different sizes with round trips; every item of "
+                  "the alphabet is queried at every checkpoint")
